@@ -180,14 +180,20 @@ func allToAllRuns(r *Run, rng *rand.Rand, thorough bool) []protoRun {
 }
 
 func runC07(r *Run, rng *rand.Rand, thorough bool) {
-	r.Rule = "every protocol is run under each delivery strategy (FIFO, LIFO, random, future-first, duplicate-everything, per-party starvation, pre-Start delivery) and, for EdDSA with n=2, under EVERY interleaving of deliveries (exhaustive DFS); after each run: each party's behaviour after each of its events is compared with the Lean round-engine model, every party ends exactly once, nothing is left waiting, and every party's multiset of (type, routing) emissions equals the FIFO run's; non-trivial = one engine trace"
+	r.Rule = "every protocol is run under each delivery strategy (FIFO, LIFO, random, future-first, duplicate-everything, per-party starvation, pre-Start delivery, one held-back delivery per message type; the resharing protocols with one held-back delivery per message type, their remaining schedules being C04's) and, for EdDSA with n=2, under EVERY interleaving of deliveries (exhaustive DFS); after each run: each party's behaviour after each of its events is compared with the Lean round-engine model, every party ends exactly once, nothing is left waiting, and every party's multiset of (type, routing) emissions equals the FIFO run's; non-trivial = one engine trace"
 	runs := allToAllRuns(r, rng, thorough)
 	for _, pr := range runs {
 		var ref []string
 		nNodes := len(pr.build(rng).Nodes)
 		sts := strategies(nNodes, rng)
+		// one slow packet per message type
+		{
+			probe := pr.build(rng)
+			probe.Run(rand.New(rand.NewSource(1)), Strategy{Name: "fifo", Pick: pickFIFO}, 500000)
+			sts = append(sts, holdStrategies(deliveredTypes(probe), rng)...)
+		}
 		for si, st := range sts {
-			if !thorough && strings.HasPrefix(pr.name, "ecdsa") && si%3 != int(r.Seed)%3 {
+			if !thorough && strings.HasPrefix(pr.name, "ecdsa") && !strings.HasPrefix(st.Name, "hold-") && si%3 != int(r.Seed)%3 {
 				continue
 			}
 			net := pr.build(rng)
@@ -226,6 +232,8 @@ func runC07(r *Run, rng *rand.Rand, thorough bool) {
 			engineCheck(r, pr.name, net, what)
 		}
 	}
+	// the two resharing protocols (their other schedules are C04's): one slow packet per message type
+	reshareHoldRuns(r, rng)
 	// exhaustive interleavings, EdDSA n = 2 (keygen and signing): DFS over the choice of the next delivery
 	for _, pr := range runs {
 		if !strings.HasPrefix(pr.name, "eddsa") {
